@@ -292,7 +292,10 @@ def run_case(case):
                 must |= m.downstream(o)
             # steps that wait for the victim's outputs could not run in the failed build
             must |= (down - set(ran1))
-            must = {s for s in must if not _symlink_copy(m, s)}
+            # links share their source's inode or always reflect it: their re-run is never
+            # required (same rule as in the touch phase)
+            must = {s for s in must if not _symlink_copy(m, s) and not (
+                m.steps[s]['kind'] == 'copy' and m.byid[m.steps[s]['node']]['mode'] != 'copy')}
             lost = sorted(must - set(ran2))
             if lost or rc != 0:
                 res.violate((backend, 'failed-step', 'not-retried' if lost else 'retry-failed',
